@@ -29,7 +29,7 @@ def corpus():
     for X, k in [(["abab", "a", ""], 10), (["ab", "ab", "a"], 10), (["abababab abab", "abab"], 1),
                  (["abababab abab", "abab"], 2), (["aaaaaaa", "aaa"], 10), (["abc", "abd"], 10),
                  (["a", "b"], 10), (["abc"], 10), (["aa"], 10), (["aaa"], 1)]:
-        cs.append({"kind": "fit", "X": X, "Xt": ["", "a", "ab", "zzab", "éa", "abababab"],
+        cs.append({"kind": "fit", "X": X, "Xt": ["", "a", "ab", "zzab", "éa", "abababab", "-" * 300 + "abab"],
                    "max_vocab_size": k, "min_token_occurrence": 1, "max_char_code": 0})
     for a in ([], [5], [1, 2], [1, 2, 1], [1, 2, 1, 2], [2, 1, 2], [1, 1, 1], [1, 1, 1, 1]):
         cs.append({"kind": "kernel", "a": a, "p": [1, 2], "c": 9})
@@ -56,6 +56,9 @@ def generate(rng, tier):
             X.append("".join(chr(rng.choice([0x61, 0x62, 0xe9, 0x4e2d, 0x1f600])) for _ in range(rng.randint(0, 8))))
         Xt = [rng.choice(allstr) for _ in range(3)] + ["", rng.choice("abczé\U0001f600")]
         Xt.append("".join(chr(rng.choice([0x61, 0x62, 0x7a, 0x3b1, 0x1f600])) for _ in range(rng.randint(0, 6))))
+        if rng.random() < 0.15:
+            # very long runs: counts beyond 255 in one row (a narrow integer accumulator would wrap)
+            Xt.append(rng.choice("abc-") * rng.choice([256, 300, 700]) + rng.choice(allstr))
         cs.append({"kind": "fit", "X": X, "Xt": Xt, "max_vocab_size": rng.choice([1, 2, 3, 10]),
                    "min_token_occurrence": rng.choice([1, 1, 2, 3]),
                    "max_char_code": rng.choice([0, 0, 127, "ascii", 200, 70000])})
